@@ -95,8 +95,17 @@ func seed() int {
 
 func check(prop, tier string) int {
 	start := time.Now()
+	var pureRes []pureResult
+	if prop == "C13" || prop == "C14" || prop == "C18" || prop == "C15" {
+		var err error
+		pureRes, err = runPure(prop, tier)
+		if err != nil {
+			fmt.Fprintln(os.Stderr, "INFRA: pure engine:", err)
+			return 2
+		}
+	}
 	jobs := harness.Catalogue(prop, tier)
-	if len(jobs) == 0 {
+	if len(jobs) == 0 && len(pureRes) == 0 {
 		fmt.Fprintf(os.Stderr, "no catalogue for %s %s\n", prop, tier)
 		return 2
 	}
@@ -179,6 +188,45 @@ func check(prop, tier string) int {
 			samples = append(samples, map[string]any{"config": json.RawMessage(r.cfg.String()), "observations": res.ObsSamples})
 		}
 	}
+	// Engine B results
+	var pureRows []any
+	for _, pr := range pureRes {
+		tot.states += int(pr.Inputs)
+		tot.trans += int(pr.Evaluations)
+		tot.execs += int(pr.Evaluations)
+		tot.obs += len(pr.Classes)
+		if !pr.Exhaustive {
+			exhaustive = false
+		}
+		verdict := "held"
+		seenKnown := map[string]bool{}
+		for _, v := range pr.Violations {
+			ev := &explore.Violation{Scenario: "pure", Config: v.Input, Message: v.Clause + " | " + v.Input + " -> " + v.Got}
+			if k := matchKnown(known, prop, ev); k != nil {
+				if !seenKnown[k.What] {
+					fmt.Printf("KNOWN-FINDING: property=%s %s\n", prop, k.What)
+					seenKnown[k.What] = true
+				}
+				continue
+			}
+			nviol++
+			verdict = "VIOLATION"
+			if exit == 0 || nviol <= 5 {
+				os.MkdirAll(filepath.Join(verifDir, "replays"), 0o755)
+				p := filepath.Join(verifDir, "replays", fmt.Sprintf("%s-pure-%d.json", prop, nviol))
+				b, _ := json.MarshalIndent(map[string]any{"engine": "pure", "property": prop, "clause": v.Clause, "input": v.Input, "got": v.Got, "go_test": v.GoTest}, "", " ")
+				os.WriteFile(p, b, 0o644)
+				fmt.Printf("VIOLATION property=%s replay=%s\n  %s\n  input %s -> %s\n", prop, p, v.Clause, v.Input, v.Got)
+			}
+			exit = 1
+		}
+		pureRows = append(pureRows, map[string]any{"domain": pr.Domain, "inputs": pr.Inputs, "evaluations": pr.Evaluations, "result_classes": pr.Classes, "violating_inputs": pr.NViolations, "verdict": verdict, "wall_s": pr.WallS})
+		for _, sm := range pr.Samples {
+			if len(samples) < 12 {
+				samples = append(samples, sm)
+			}
+		}
+	}
 	if len(infra) > 0 && exit == 0 {
 		exit = 2
 		for _, m := range infra {
@@ -209,6 +257,7 @@ func check(prop, tier string) int {
 			"configurations":                len(rows),
 			"monitor_event_counts":          counters,
 			"per_configuration":             rows,
+			"pure_function_domains":         pureRows,
 			"explanation":                   "every explored trace is an execution of the implementation itself (the rewritten /repo sources on the virtual runtime), so traces_validated_against_impl equals the number of executions",
 		},
 		"assumptions": harness.Assumptions(prop),
@@ -259,7 +308,46 @@ func runJob(self string, c harness.Cfg) *explore.Result {
 	return &res
 }
 
-func pure(prop, tier string) int {
-	fmt.Fprintln(os.Stderr, "pure engine not built yet")
-	return 2
+func pure(prop, tier string) int { return check(prop, tier) }
+
+type pureViolation struct {
+	Clause string `json:"clause"`
+	Input  string `json:"input"`
+	Got    string `json:"got"`
+	GoTest string `json:"go_test"`
+}
+
+type pureResult struct {
+	Property    string           `json:"property"`
+	Domain      string           `json:"domain"`
+	Inputs      int64            `json:"inputs"`
+	Evaluations int64            `json:"evaluations"`
+	Classes     map[string]int64 `json:"result_classes"`
+	Samples     []string         `json:"samples"`
+	Violations  []pureViolation  `json:"violations"`
+	NViolations int64            `json:"n_violations"`
+	Exhaustive  bool             `json:"exhaustive"`
+	WallS       float64          `json:"wall_s"`
+}
+
+func runPure(prop, tier string) ([]pureResult, error) {
+	self, _ := os.Executable()
+	bin := filepath.Join(filepath.Dir(self), "cqpure")
+	cmd := exec.Command(bin, prop, tier)
+	var out, errb bytes.Buffer
+	cmd.Stdout = &out
+	cmd.Stderr = &errb
+	if err := cmd.Run(); err != nil {
+		msg := errb.String()
+		if len(msg) > 600 {
+			msg = msg[:600]
+		}
+		return nil, fmt.Errorf("%v: %s", err, msg)
+	}
+	var res []pureResult
+	lines := bytes.Split(bytes.TrimSpace(out.Bytes()), []byte("\n"))
+	if err := json.Unmarshal(lines[len(lines)-1], &res); err != nil {
+		return nil, err
+	}
+	return res, nil
 }
